@@ -112,10 +112,11 @@ Theorem C12_minp_min_obs :
 Proof. exact (@minp_of_min_obs). Qed.
 Print Assumptions C12_minp_min_obs.
 
+(* min_period is converted to a number of observations with the TRUE median sampling step (ns): trunc(min_period * 10^9 / step_ns) = trunc(min_period / step in seconds), whole-second or not *)
 Theorem C12_minp_min_period :
   forall (mp : Z) (ts : list Z),
          (2 <= Datatypes.length ts)%nat ->
-         time_interval ts <> 0%Z -> minp_of None (Some mp) ts = (mp ÷ time_interval ts)%Z.
+         time_interval ts <> 0%Z -> minp_of None (Some mp) ts = (mp * NS ÷ time_interval ts)%Z.
 Proof. exact (@minp_of_min_period). Qed.
 Print Assumptions C12_minp_min_period.
 
